@@ -43,6 +43,9 @@ structure World (U V : Type) where
   tupleOf : List V → V
   /-- `o[lo:up:step]`; the bound expressions are the world's to interpret -/
   getslice : V → Option Expr → Option Expr → Option Expr → U → Option (V × U)
+  /-- `iter(x)` and one `next(it)` (`none` = StopIteration): may run user code -/
+  getiter : V → U → Option (V × U)
+  next    : V → U → Option (Option V × U)
 
 abbrev T (V : Type) := List (String × V)
 
@@ -63,6 +66,7 @@ def isGlue' : Expr → Bool
   | .ifExp _ _ _ => true
   | .boolOp _ [_, _] => true
   | .unaryOp .uSub (.const (.int _)) => true
+  | .listComp _ [.mk (.name x) _ [] false] => decide (isTemp x)
   | .call (.name "tuple") [_] [] => true
   | .call (.name "list") [_] [] => true
   | .call (.name "setattr") [_, .const (.str _), _] [] => true
@@ -124,6 +128,9 @@ mutual
     | orF (a b : Expr) {u u1 u2 u3 : U} {t t1 t2 : T V} {av bv : V} :
         Ev W a u t av u1 t1 → W.truthy av u1 = some (false, u2) → Ev W b u2 t1 bv u3 t2 →
         Ev W (.boolOp .or_ [a, b]) u t bv u3 t2
+    | forComp (elt : Expr) (x : String) (itr : Expr) {u u1 u2 u3 : U} {t t1 t3 : T V} {iv it : V} {vs : List V} :
+        isTemp x → Ev W itr u t iv u1 t1 → W.getiter iv u1 = some (it, u2) → Iter W elt x it u2 t1 vs u3 t3 →
+        Ev W (.listComp elt [.mk (.name x) itr [] false]) u t (W.listOf vs) u3 t3
     | runner (u : U) (t : T V) : Ev W chainRunner u t W.runner u t
     | chain (f a : Expr) {u u1 u2 : U} {t t1 t2 : T V} {v : V} :
         isChain (.call f [a] []) = true → Ev W f u t W.runner u1 t1 → Ev W a u1 t1 v u2 t2 →
@@ -133,6 +140,13 @@ mutual
     | nil (u : U) (t : T V) : EvL W [] u t [] u t
     | cons {e : Expr} {es : List Expr} {u u1 u2 : U} {t t1 t2 : T V} {v : V} {vs : List V} :
         Ev W e u t v u1 t1 → EvL W es u1 t1 vs u2 t2 → EvL W (e :: es) u t (v :: vs) u2 t2
+  /-- the iterations of a comprehension over the iterator `it`: `next`, bind the (helper) variable, evaluate
+      the element, again - until StopIteration (language reference 6.2.4) -/
+  inductive Iter (W : World U V) : Expr → String → V → U → T V → List V → U → T V → Prop
+    | done (elt : Expr) (x : String) (it : V) {u u' : U} (t : T V) : W.next it u = some (none, u') → Iter W elt x it u t [] u' t
+    | step (elt : Expr) (x : String) (it : V) {u u1 u2 u3 : U} {t t2 t3 : T V} {v ev : V} {vs : List V} :
+        W.next it u = some (some v, u1) → Ev W elt u1 ((x, v) :: t) ev u2 t2 → Iter W elt x it u2 t2 vs u3 t3 →
+        Iter W elt x it u t (ev :: vs) u3 t3
 end
 
 /-- an expression that never names a helper variable where the rules would look at it -/
@@ -237,9 +251,20 @@ mutual
         Ev W test u [] tv u1 [] → W.truthy tv u1 = some (false, u2) → ExecB W orelse u2 u3 →
         ExecS W (.if_ test body orelse) u u3
 
+    | for_ (target iter : Expr) (body orelse : List Stmt) {iv it : V} {u u1 u2 u3 u4 : U} :
+        Ev W iter u [] iv u1 [] → W.getiter iv u1 = some (it, u2) → ForIter W target body it u2 u3 → ExecB W orelse u3 u4 →
+        ExecS W (.for_ target iter body orelse) u u4
+
   inductive ExecB (W : World U V) : List Stmt → U → U → Prop
     | nil (u : U) : ExecB W [] u u
     | cons {s : Stmt} {ss : List Stmt} {u u1 u2 : U} : ExecS W s u u1 → ExecB W ss u1 u2 → ExecB W (s :: ss) u u2
+
+  /-- the iterations of a `for` statement without break / continue (8.3): `next`, assign the target, run the body -/
+  inductive ForIter (W : World U V) : Expr → List Stmt → V → U → U → Prop
+    | done (target : Expr) (body : List Stmt) (it : V) {u u' : U} : W.next it u = some (none, u') → ForIter W target body it u u'
+    | step (target : Expr) (body : List Stmt) (it : V) {u u1 u2 u3 u4 : U} {v : V} :
+        W.next it u = some (some v, u1) → AssignT W target v u1 u2 → ExecB W body u2 u3 → ForIter W target body it u3 u4 →
+        ForIter W target body it u u4
 end
 
 /-- a plain index: not a slice and not a tuple (those are rewritten by `convert_index`) -/
@@ -260,7 +285,8 @@ inductive SimpleT : Expr → Prop
 
 /-- the statements of the fragment: expression statements, `pass`, `global`, assignments with any
     number of name / attribute / subscript targets, augmented assignments on the same targets,
-    `if` / `elif` / `else` over such statements at any nesting; all their expressions free of helper names -/
+    `if` / `elif` / `else` and `for` (with `else`, without break / continue) over such statements at any nesting;
+    all their expressions free of helper names -/
 inductive SimpleS : Stmt → Prop
   | expr (e : Expr) : Clean e → SimpleS (.expr e)
   | pass : SimpleS .pass_
@@ -269,5 +295,7 @@ inductive SimpleS : Stmt → Prop
   | aug (t : Expr) (op : BinOpK) (value : Expr) : SimpleT t → Clean value → SimpleS (.augAssign t op value)
   | if_ (test : Expr) (body orelse : List Stmt) : Clean test → (∀ s ∈ body, SimpleS s) → (∀ s ∈ orelse, SimpleS s) →
       SimpleS (.if_ test body orelse)
+  | for_ (target iter : Expr) (body orelse : List Stmt) : SimpleT target → Clean iter → (∀ s ∈ body, SimpleS s) →
+      (∀ s ∈ orelse, SimpleS s) → SimpleS (.for_ target iter body orelse)
 
 end OlVerif.Sem
